@@ -8,20 +8,16 @@ Ltac Zify.zify_post_hook ::= Z.to_euclidean_division_equations.
 
 Section Safety.
 Variables (ic : icfg) (tc : tcfg) (fuel : nat) (timeout : Z).
-(* nochain: every payload the initiator application sends fits into one frame (no chained DEP_REQ, hence no ACK response) *)
-Variable nochain : Prop.
 Hypothesis H106 : ic_106 ic = tc_106 tc.
 Hypothesis Hdid : tc_did tc = ic_did ic.
 Hypothesis Hmt : 1 <= tc_miu tc /\ tc_miu tc + 3 + b2z (is_some (tc_did tc)) + b2z (is_some (tc_nad tc)) <= 254.
 Hypothesis Hmi : 1 <= ic_miu ic /\ ic_miu ic + 3 + b2z (is_some (ic_did ic)) + b2z (is_some (ic_nad ic)) <= 254.
 Hypothesis Hfuel : Z.max 0 timeout < Z.of_nat fuel.
 
-(* scripts on which every protocol step succeeds: no fault at all, or isolated single faults - where, because
-   request_retransmission rejects a retransmitted ACK, either no response is corrupted or no ACK response occurs *)
-Definition Good (sc : list (fate * fate)) : Prop :=
-  (sc = [] /\ 1 <= timeout) \/ (Sparse sc /\ NC sc /\ 2 <= timeout) \/ (Sparse sc /\ 2 <= timeout /\ nochain).
-Definition fmt_ok (r : deppdu) (sc : list (fate * fate)) : Prop :=
-  fmt r = F_INF \/ fmt r = F_MORE \/ (fmt r = F_ACK /\ (sc = [] \/ NC sc)).
+(* scripts on which every protocol step succeeds: no fault at all, or isolated single faults *)
+Definition Good (sc : list (fate * fate)) : Prop := (sc = [] /\ 1 <= timeout) \/ (Sparse sc /\ 2 <= timeout).
+(* the responses of the ideal run: information PDUs, or an ACK to a chained information PDU *)
+Definition fmt_ok (r d : deppdu) : Prop := fmt r = F_INF \/ fmt r = F_MORE \/ (fmt r = F_ACK /\ fmt d = F_MORE).
 
 (* one call of send_dep_req_recv_dep_res for a request the target is ready to accept *)
 Lemma srr_call p w out w' t0 t1 d r :
@@ -31,40 +27,25 @@ Lemma srr_call p w out w' t0 t1 d r :
   srr fuel ic tc p d 1 timeout w = (out, w') ->
   (w_t w' = t0 \/ w_t w' = awake t0 \/ w_t w' = t1) /\
   ((out = Ok r /\ w_t w' = t1) \/ (exists e, out = Err e /\ comm e)) /\
-  (Good (w_script w) -> fmt_ok r (w_script w) -> out = Ok r /\ Good (w_script w')).
+  (Good (w_script w) -> fmt_ok r d -> out = Ok r /\ Good (w_script w')).
 Proof.
   intros Hreq Hf HI Hpos Hnew Hfirst Hacc Hw Hp H.
   assert (Hin : InS t0 t1 (w_t w)) by (left; exact Hw).
   destruct (srr_safe ic tc H106 Hdid Hmt Hmi t0 t1 d r Hreq Hf HI Hpos Hnew Hfirst Hacc fuel p 1 timeout w out w' Hin Hp ltac:(lia) H) as (A & B).
   split; [exact A|]. split.
   - destruct B as [B|[B|[_ B]]]; [left; exact B | right; exact B | lia].
-  - intros HG Hn.
-    assert (Hnof : w_script w = [] -> 1 <= timeout -> out = Ok r /\ w_script w' = []).
-    { intros Hs Hto.
-      destruct (srr_nofault ic tc H106 Hdid Hmt Hmi t0 t1 d r Hreq Hf HI Hpos Hnew Hfirst Hacc fuel p 1 timeout w Hin) as (w2 & E & _ & E2 & _);
+  - intros [[Hs Hto]|[Hs Hto]] Hn.
+    + destruct (srr_nofault ic tc H106 Hdid Hmt Hmi t0 t1 d r Hreq Hf HI Hpos Hnew Hfirst Hacc fuel p 1 timeout w Hin) as (w2 & E & _ & E2 & _);
         [rewrite Hs; reflexivity | lia | exact Hto | lia | unfold fmt_ok, F_INF, F_MORE, F_ACK, F_NAK in *; lia|].
-      rewrite E in H. injection H as <- <-. split; [reflexivity|]. rewrite E2, Hs. reflexivity. }
-    assert (Hsp : forall (Hs : Sparse (w_script w)) (Hto : 2 <= timeout),
-               ((fmt r = F_INF \/ fmt r = F_MORE) \/ (fmt r = F_ACK /\ NC (w_script w))) ->
-               out = Ok r /\ Sparse (w_script w') /\ exists k, w_script w' = skipn k (w_script w)).
-    { intros Hs Hto Hfr.
-      destruct (srr_sparse ic tc H106 Hdid Hmt Hmi t0 t1 d r Hreq Hf HI Hpos Hnew Hfirst Hacc fuel p timeout w (or_introl Hw) Hp Hs Hto ltac:(lia) Hfr) as (w2 & E & _ & E2 & E3).
-      rewrite E in H. injection H as <- <-. auto. }
-    destruct HG as [[Hs Hto]|[(Hs & Hnc & Hto)|(Hs & Hto & Hch)]].
-    + destruct (Hnof Hs Hto) as [-> E]. split; [reflexivity|]. left. auto.
-    + destruct (Hsp Hs Hto) as (-> & S' & k & Ek).
-      { destruct Hn as [Hn|[Hn|[Hn _]]]; [left; left; exact Hn | left; right; exact Hn | right; auto]. }
-      split; [reflexivity|]. right; left. rewrite Ek at 2. split; [exact S'|]. split; [apply NC_skipn, Hnc | exact Hto].
-    + destruct Hn as [Hn|[Hn|[Hn [He|Hnc]]]].
-      * destruct (Hsp Hs Hto ltac:(left; left; exact Hn)) as (-> & S' & _). split; [reflexivity|]. right; right. auto.
-      * destruct (Hsp Hs Hto ltac:(left; right; exact Hn)) as (-> & S' & _). split; [reflexivity|]. right; right. auto.
-      * destruct (Hnof He ltac:(lia)) as [-> E]. split; [reflexivity|]. left. split; [exact E | lia].
-      * destruct (Hsp Hs Hto ltac:(right; auto)) as (-> & S' & _). split; [reflexivity|]. right; right. auto.
+      rewrite E in H. injection H as <- <-. split; [reflexivity|]. left. rewrite E2, Hs. auto.
+    + destruct (srr_sparse ic tc H106 Hdid Hmt Hmi t0 t1 d r Hreq Hf HI Hpos Hnew Hfirst Hacc fuel p timeout w (or_introl Hw) Hp Hs Hto ltac:(lia)) as (w2 & E & _ & E2 & _).
+      { destruct Hn as [Hn|[Hn|Hn]]; auto. }
+      rewrite E in H. injection H as <- <-. split; [reflexivity|]. right. auto.
 Qed.
 
 Lemma inf_fmt q sd : fmt (inf tc q sd) = F_INF \/ fmt (inf tc q sd) = F_MORE.
 Proof. unfold inf; cbn. destruct (tc_miu tc <? len sd); auto. Qed.
-Lemma inf_fmt3 q sd sc : fmt_ok (inf tc q sd) sc.
+Lemma inf_fmt3 q sd d : fmt_ok (inf tc q sd) d.
 Proof. unfold fmt_ok. destruct (inf_fmt q sd); auto. Qed.
 
 Lemma awake_out t : t_out (awake t) = t_out t.
@@ -80,14 +61,13 @@ Proof. intro H. unfold take. apply firstn_all2. unfold len in H. lia. Qed.
 (* ------------------------------------------------------------ the send loop *)
 Lemma send_loop_spec resp rest n : forall p sd last acc t w out w',
   Ready tc t p acc -> w_t w = t -> t_app t = (0, resp) :: rest -> resp <> [] -> sd <> [] -> (length sd <= n)%nat ->
-  (nochain -> len (acc ++ sd) <= ic_miu ic) ->
   send_loop n fuel ic tc p sd last timeout w = (out, w') ->
   ((exists e, out = Err e /\ comm e) /\ Safe (t_out t) (acc ++ sd) (w_t w')
    \/ exists q, 0 <= q <= 3 /\ out = Ok ((q + 1) mod 4, inf tc q resp) /\ Sending tc (w_t w') q resp /\
                 t_app (w_t w') = rest /\ t_out (w_t w') = t_out t ++ [TOk (acc ++ sd)] /\ t_rtx (w_t w') = t_rtx t) /\
   (Good (w_script w) -> (exists y, out = Ok y) /\ Good (w_script w')).
 Proof.
-  induction n as [|n IH]; intros p sd last acc t w out w' HR Hw Happ Hne Hsd Hlen Hnch H.
+  induction n as [|n IH]; intros p sd last acc t w out w' HR Hw Happ Hne Hsd Hlen H.
   { destruct sd; [congruence | cbn in Hlen; lia]. }
   destruct sd as [|b sd0]; [congruence|]. remember (b :: sd0) as sd eqn:Esd.
   assert (Hsd0 : send_loop (S n) fuel ic tc p sd last timeout w =
@@ -142,10 +122,7 @@ Proof.
     destruct (srr_call p w o1 w1 t t1 d (ack tc p) Hreq ltac:(auto) HI Hpos Hnew Hfirst Hacc Hw Hp Es) as (A & B & C).
     assert (Hsafe : Safe (t_out t) (acc ++ sd) (w_t w1)).
     { destruct A as [-> |[-> | ->]]; [left; reflexivity | left; apply awake_out | left; reflexivity]. }
-    assert (Hackok : Good (w_script w) -> fmt_ok (ack tc p) (w_script w)).
-    { intros [[E _]|[(_ & N & _)|(_ & _ & Hc)]]; unfold fmt_ok; [right; right; split; [reflexivity | left; exact E] | right; right; split; [reflexivity | right; exact N]|].
-      exfalso. specialize (Hnch Hc). rewrite len_app in Hnch. pose proof (len_nonneg acc).
-      assert (Hd : drop (ic_miu ic) sd = []) by (apply drop_nil_iff; lia). rewrite <- Esd' in Hd. discriminate. }
+    assert (Hackok : Good (w_script w) -> fmt_ok (ack tc p) d) by (intros _; right; right; split; reflexivity).
     destruct B as [[-> B]|[e [-> He]]].
     + unfold after_rtox in H. change (fmt (ack tc p) =? F_RTOX) with false in H. cbv iota in H.
       change (fmt (ack tc p) =? F_ACK) with true in H. cbn [andb negb nonempty] in H.
@@ -157,7 +134,7 @@ Proof.
         unfold len in *. lia. }
       assert (Eacc : (acc ++ data d) ++ b' :: sd1 = acc ++ sd).
       { cbn [data d i_dep]. rewrite <- app_assoc, Hcs. reflexivity. }
-      destruct (IH ((p + 1) mod 4) (b' :: sd1) (Some (ack tc p)) (acc ++ data d) t1 w1 out w' HR1 B Happ Hne ltac:(discriminate) Hlen' ltac:(rewrite Eacc; exact Hnch) H) as (X & Y).
+      destruct (IH ((p + 1) mod 4) (b' :: sd1) (Some (ack tc p)) (acc ++ data d) t1 w1 out w' HR1 B Happ Hne ltac:(discriminate) Hlen' H) as (X & Y).
       rewrite Eacc in X. split; [exact X|].
       intros Hs. destruct (C Hs (Hackok Hs)) as [_ C2]. apply Y; assumption.
     + injection H as <- <-. split; [left; split; [eauto | exact Hsafe]|].
@@ -221,16 +198,16 @@ Qed.
 (* ------------------------------------------------------------ Initiator.exchange *)
 Lemma exchange_spec n resp rest p x t w out w' :
   Ready tc t p [] -> w_t w = t -> t_app t = (0, resp) :: rest -> resp <> [] -> x <> [] ->
-  (length x <= n)%nat -> (length resp <= n)%nat -> (nochain -> len x <= ic_miu ic) ->
+  (length x <= n)%nat -> (length resp <= n)%nat ->
   ini_exchange n fuel ic tc p x timeout w = (out, w') ->
   ((exists e, out = Err e /\ comm e) /\ Safe (t_out t) x (w_t w')
    \/ exists p', out = Ok (p', resp) /\ Ready tc (w_t w') p' [] /\
                  t_app (w_t w') = rest /\ t_out (w_t w') = t_out t ++ [TOk x] /\ t_rtx (w_t w') = t_rtx t) /\
   (Good (w_script w) -> (exists y, out = Ok y) /\ Good (w_script w')).
 Proof.
-  intros HR Hw Happ Hne Hx Hlx Hlr Hnch H. unfold ini_exchange in H.
+  intros HR Hw Happ Hne Hx Hlx Hlr H. unfold ini_exchange in H.
   destruct (send_loop n fuel ic tc p x None timeout w) as [o1 w1] eqn:Es.
-  destruct (send_loop_spec resp rest n p x None [] t w o1 w1 HR Hw Happ Hne Hx Hlx Hnch Es) as (A & B).
+  destruct (send_loop_spec resp rest n p x None [] t w o1 w1 HR Hw Happ Hne Hx Hlx Es) as (A & B).
   cbn [app] in A.
   destruct A as [((e & -> & He) & Hsafe)|(q & Hq & -> & HS & Ha & Ho & Hr)].
   - injection H as <- <-. split; [left; split; [eauto | exact Hsafe]|].
@@ -255,7 +232,7 @@ Definition fits (n : nat) (L : list (list Z)) : Prop := Forall (fun x => (length
 
 Lemma ini_app_spec n : forall P R p t w l w',
   Ready tc t p [] -> w_t w = t -> t_app t = app_of R -> nonempty_all P -> nonempty_all R ->
-  fits n P -> fits n R -> (length P <= length R)%nat -> (nochain -> Forall (fun x => len x <= ic_miu ic) P) ->
+  fits n P -> fits n R -> (length P <= length R)%nat ->
   ini_app n fuel ic tc p P timeout w = (l, w') ->
   ((exists j e, (j < length P)%nat /\ l = map IOk (firstn j R) ++ [IErr e] /\ comm e /\
                 (t_out (w_t w') = t_out t ++ map TOk (firstn j P) \/ t_out (w_t w') = t_out t ++ map TOk (firstn (S j) P)))
@@ -263,7 +240,7 @@ Lemma ini_app_spec n : forall P R p t w l w',
        exists p', Ready tc (w_t w') p' [])) /\
   (Good (w_script w) -> l = map IOk (firstn (length P) R) /\ Good (w_script w')).
 Proof.
-  induction P as [|x P IH]; intros R p t w l w' HR Hw Happ HnP HnR HfP HfR Hlen Hnch H; cbn [ini_app] in H.
+  induction P as [|x P IH]; intros R p t w l w' HR Hw Happ HnP HnR HfP HfR Hlen H; cbn [ini_app] in H.
   - injection H as <- <-. split.
     + right. cbn. rewrite app_nil_r, Hw. split; [reflexivity|]. split; [reflexivity|]. eauto.
     + intros Hs. cbn. auto.
@@ -271,7 +248,7 @@ Proof.
     inversion HnP as [|? ? Hx HnP']; subst. inversion HnR as [|? ? Hr HnR']; subst.
     inversion HfP as [|? ? Hlx HfP']; subst. inversion HfR as [|? ? Hlr HfR']; subst.
     destruct (ini_exchange n fuel ic tc p x timeout w) as [o1 w1] eqn:Ee.
-    destruct (exchange_spec n resp (app_of R) p x (w_t w) w o1 w1 HR eq_refl Happ Hr Hx Hlx Hlr ltac:(intro Hc; specialize (Hnch Hc); inversion Hnch; assumption) Ee) as (A & B).
+    destruct (exchange_spec n resp (app_of R) p x (w_t w) w o1 w1 HR eq_refl Happ Hr Hx Hlx Hlr Ee) as (A & B).
     destruct A as [((e & -> & He) & Hsafe)|(p' & -> & HR' & Ha' & Ho' & Hr')].
     + injection H as <- <-. split.
       * left. exists 0%nat, e. cbn [firstn map app length]. split; [lia|]. split; [reflexivity|]. split; [exact He|].
@@ -279,7 +256,7 @@ Proof.
       * intros Hs. destruct (B Hs) as [[y Hy] _]. discriminate.
     + destruct (ini_app n fuel ic tc p' P timeout w1) as [l2 w2] eqn:Ea. injection H as <- <-.
       cbn in Hlen.
-      destruct (IH R p' (w_t w1) w1 l2 w2 HR' eq_refl Ha' HnP' HnR' HfP' HfR' ltac:(lia) ltac:(intro Hc; specialize (Hnch Hc); inversion Hnch; assumption) Ea) as (X & Y).
+      destruct (IH R p' (w_t w1) w1 l2 w2 HR' eq_refl Ha' HnP' HnR' HfP' HfR' ltac:(lia) Ea) as (X & Y).
       split.
       * destruct X as [(j & e & Hj & -> & He & Hout)|(-> & Hout & Hrd)].
         -- left. exists (S j), e. cbn [firstn map app length]. split; [lia|]. split; [reflexivity|]. split; [exact He|].
@@ -384,8 +361,8 @@ Theorem dep_safety_thm ic tc n fuel script P R timeout release :
 Proof.
   intros (H106 & Hdid & Hmt & Hmi) Hfuel HnP HnR HfP HfR Hlen. cbv zeta. unfold conversation.
   destruct (ini_app n fuel ic tc 0 P timeout (mkw (tgt_init (app_of R)) script 0 [])) as [ir w1] eqn:Ea.
-  destruct (ini_app_spec ic tc fuel timeout False H106 Hdid Hmt Hmi Hfuel n P R 0 (tgt_init (app_of R)) (mkw (tgt_init (app_of R)) script 0 []) ir w1
-              (ready_init tc (app_of R)) eq_refl eq_refl HnP HnR HfP HfR Hlen (fun f : False => match f with end) Ea) as (A & _).
+  destruct (ini_app_spec ic tc fuel timeout H106 Hdid Hmt Hmi Hfuel n P R 0 (tgt_init (app_of R)) (mkw (tgt_init (app_of R)) script 0 []) ir w1
+              (ready_init tc (app_of R)) eq_refl eq_refl HnP HnR HfP HfR Hlen Ea) as (A & _).
   cbn [o_ini o_tgt].
   destruct (end_out ic tc H106 Hdid release w1) as (tail & Et & Htail). rewrite Et.
   destruct A as [(j & e & Hj & -> & He & [Ho|Ho])|(-> & Ho & _)]; rewrite Ho; cbn [tgt_init t_out app].
@@ -403,8 +380,8 @@ Theorem dep_nofault_exact_thm ic tc n fuel P R timeout release :
 Proof.
   intros (H106 & Hdid & Hmt & Hmi) Hfuel Hto HnP HnR HfP HfR Hlen. cbv zeta. unfold conversation.
   destruct (ini_app n fuel ic tc 0 P timeout (mkw (tgt_init (app_of R)) [] 0 [])) as [ir w1] eqn:Ea.
-  destruct (ini_app_spec ic tc fuel timeout False H106 Hdid Hmt Hmi Hfuel n P R 0 (tgt_init (app_of R)) (mkw (tgt_init (app_of R)) [] 0 []) ir w1
-              (ready_init tc (app_of R)) eq_refl eq_refl HnP HnR HfP HfR Hlen (fun f : False => match f with end) Ea) as (A & B).
+  destruct (ini_app_spec ic tc fuel timeout H106 Hdid Hmt Hmi Hfuel n P R 0 (tgt_init (app_of R)) (mkw (tgt_init (app_of R)) [] 0 []) ir w1
+              (ready_init tc (app_of R)) eq_refl eq_refl HnP HnR HfP HfR Hlen Ea) as (A & B).
   destruct (B (or_introl (conj eq_refl Hto))) as [-> _]. cbn [o_ini o_tgt]. split; [reflexivity|].
   destruct (end_out ic tc H106 Hdid release w1) as (tail & Et & Htail). rewrite Et.
   destruct A as [(j & e & Hj & E & _)|(_ & Ho & _)].
@@ -415,26 +392,19 @@ Proof.
 Qed.
 
 (* liveness under the stated budget: if every faulty round is followed by two fault free rounds (every lost or
-   corrupted frame is the only fault of its protocol step) the conversation completes with the exact data -
-   provided no ACK response is corrupted: either no response at all is corrupted (NC), or the initiator never
-   chains (every payload fits into one frame, so the target never answers with an ACK).  The excluded class is a
-   genuine defect of the tree (request_retransmission rejects a retransmitted ACK; the repair is pinned by
-   tests/test_dep.py::test_exchange_retransmission_invalid_response), see dep_single_fault_refuted. *)
+   corrupted frame is the only fault of its protocol step) the conversation completes with the exact data *)
 Theorem dep_single_fault_recovered_thm ic tc n fuel script P R timeout release :
   valid_cfg ic tc -> Z.max 0 timeout < Z.of_nat fuel -> 2 <= timeout -> Sparse script ->
-  (NC script \/ Forall (fun x => len x <= ic_miu ic) P) ->
   nonempty_all P -> nonempty_all R -> fits n P -> fits n R -> (length P <= length R)%nat ->
   let o := conversation n fuel ic tc script P (app_of R) timeout release in
   o_ini o = map IOk (firstn (length P) R) /\
   exists ttail, o_tgt o = map TOk P ++ ttail /\ tail_ok ttail.
 Proof.
-  intros (H106 & Hdid & Hmt & Hmi) Hfuel Hto Hsp Hguard HnP HnR HfP HfR Hlen. cbv zeta. unfold conversation.
+  intros (H106 & Hdid & Hmt & Hmi) Hfuel Hto Hsp HnP HnR HfP HfR Hlen. cbv zeta. unfold conversation.
   destruct (ini_app n fuel ic tc 0 P timeout (mkw (tgt_init (app_of R)) script 0 [])) as [ir w1] eqn:Ea.
-  destruct (ini_app_spec ic tc fuel timeout (Forall (fun x => len x <= ic_miu ic) P) H106 Hdid Hmt Hmi Hfuel n P R 0 (tgt_init (app_of R)) (mkw (tgt_init (app_of R)) script 0 []) ir w1
-              (ready_init tc (app_of R)) eq_refl eq_refl HnP HnR HfP HfR Hlen (fun h => h) Ea) as (A & B).
-  assert (HG : Good timeout (Forall (fun x => len x <= ic_miu ic) P) (w_script (mkw (tgt_init (app_of R)) script 0 []))).
-  { cbn [w_script]. destruct Hguard as [Hnc|Hch]; [right; left; auto | right; right; auto]. }
-  destruct (B HG) as [-> _]. cbn [o_ini o_tgt]. split; [reflexivity|].
+  destruct (ini_app_spec ic tc fuel timeout H106 Hdid Hmt Hmi Hfuel n P R 0 (tgt_init (app_of R)) (mkw (tgt_init (app_of R)) script 0 []) ir w1
+              (ready_init tc (app_of R)) eq_refl eq_refl HnP HnR HfP HfR Hlen Ea) as (A & B).
+  destruct (B (or_intror (conj Hsp Hto))) as [-> _]. cbn [o_ini o_tgt]. split; [reflexivity|].
   destruct (end_out ic tc H106 Hdid release w1) as (tail & Et & Htail). rewrite Et.
   destruct A as [(j & e & Hj & E & _)|(_ & Ho & _)].
   - exfalso. assert (Hin : In (IErr e) (map IOk (firstn (length P) R))).
